@@ -198,12 +198,26 @@ func specsC14(tier string) []seqmc.Spec {
 		cfg.ops = append(cfg.ops, op{kind: "updmeta"})
 		out = append(out, mkSpec(cfg, depth))
 	}
+	// data leaves whose update path starts with an element named like the
+	// metadata root while the stored path does not (origin or prefix in front):
+	// target data for Reset and Remove like any other leaf
+	mkMeta := func(depth int) {
+		cfg := &specCfg{name: "paths named like the metadata root", targets: []string{"t1"}, eventDriven: true,
+			oracles: oset("state", "replica", "frame", "reset", "remove", "feed")}
+		cfg.ops = append(cfg.ops, upd("t1", "x", 1, 1), updO("t1", "o", "meta/x", 1, 1),
+			op{kind: "upd", target: "t1", ts: 1, prefix: ps("a"), ups: []updSpec{{ps("meta/y"), 1}}},
+			op{kind: "upd", target: "t1", ts: 2, prefix: ps("a"), ups: []updSpec{{ps("meta/y"), 2}}},
+			del("t1", "*", 3), life("sync", "t1"), life("reset", "t1"), life("remove", "t1"), life("add", "t1"), op{kind: "updmeta"})
+		out = append(out, mkSpec(cfg, depth))
+	}
 	if tier == "thorough" {
 		mk("3 targets", []string{"t1", "t2", "t3"}, 5)
 		mk("2 targets deep", []string{"t1", "t2"}, 6)
+		mkMeta(7)
 		return out
 	}
 	mk("2 targets", []string{"t1", "t2"}, 5)
+	mkMeta(5)
 	return out
 }
 
